@@ -1,6 +1,7 @@
 """C12 - .gr files: every reader and writer computes the same byte layout (narrow: LAYOUT + version TABLE + width + Endian SIB)."""
 import re
 
+from gsa import rules as R
 from gsa.cfg import Fn, S, canon, is_call, walk, lit
 from gsa.layout import Interp, Poly, Val, SIZES
 
@@ -708,3 +709,12 @@ def run(ctx):
     two_phase(ctx, fxt)
     partial_io(ctx, [fx, fxt] + ([fxd] if fxd is not None else []))
     frommem_presence(ctx, fx)
+    ctx.rule("C12.fold.accumulator-holds-elements",
+             "every std::accumulate / reduce / exclusive_scan / inner_product in the graph file readers and writers (graphs/*.h, "
+             "FileGraph.cpp, the converters) folds in a type that can hold the elements: the accumulator has the type of the "
+             "init argument (a literal 0 makes it int); edge counts are 64-bit")
+    seen_folds = set()
+    nf = sum(R.fold_accumulators(ctx, f_, "C12.fold.accumulator-holds-elements",
+                                 r"galois/graphs/|/FileGraph(Parallel)?\.cpp$|/OCFileGraph\.cpp$|/tools/", seen_folds)
+             for f_ in [fx, fxt] + ([fxd] if fxd is not None else []))
+    ctx.floor("std folds in the graph file code", nf, 1)
